@@ -41,7 +41,8 @@ def run_case(data):
             break
         usable = sorted(s for s in m.streams if s not in w.tainted)
         op = ch.weighted([(8, 'open-local'), (8, 'open-peer'), (4, 'local-end'), (4, 'peer-end'), (3, 'respond'),
-                          (2, 'peer-limit'), (2, 'local-limit'), (2, 'local-ack'), (3, 'query'), (2, 'wu-overflow')])
+                          (2, 'peer-limit'), (2, 'local-limit'), (2, 'local-ack'), (3, 'query'), (2, 'wu-overflow'),
+                          (3, 'late-headers'), (2, 'info')])
         if op == 'open-local':
             if client:
                 w.send_headers(w.next_local_id(), 'final', ch.chance(48))
@@ -91,6 +92,29 @@ def run_case(data):
                 w.recv_data(sid, True)
             else:
                 w.recv_rst(sid)
+        elif op == 'late-headers':
+            # HEADERS the peer sent before it saw our reset of that stream: no new stream, so no limit applies
+            cands = [s for s in usable if m.get(s).state == M.CLOSED and m.get(s).closed_by == 'send-rst' and
+                     not m.get(s).local or (m.get(s).state == M.CLOSED and m.get(s).closed_by == 'send-rst' and client)]
+            if not cands:
+                continue
+            sid = ch.pick(cands)
+            if ch.bool():
+                _ = w.s.c.open_inbound_streams     # the closed stream may or may not still be in the table
+            w.recv_headers(sid, ch.pick(['final', 'trailers']), ch.bool())
+            r.labels.add('late-headers-on-reset-stream')
+        elif op == 'info':
+            # an informational response before the final one changes no count
+            if client:
+                cands = [s for s in usable if m.get(s).local and m.get(s).can_recv() and not m.get(s).r_final]
+                if cands:
+                    w.recv_headers(ch.pick(cands), 'info', False)
+            else:
+                cands = [s for s in usable if m.headers_position(m.get(s)) == 'response' and
+                         m.get(s).state != M.RES_LOCAL]
+                if cands:
+                    w.send_headers(ch.pick(cands), 'info', False)
+            r.labels.add('informational')
         elif op == 'wu-overflow':
             # one more way for a stream to close: the library itself resets it (stream error)
             cands = [s for s in usable if m.get(s).live() and M.ACCEPT in m.recv_window_update_verdict(s)]
